@@ -118,7 +118,8 @@ fn compare(what: &str, a: &str, b: &str, p: &Program, q: &Program) -> Result<(),
 pub fn c14a_case(ex: &mut Expander, tape: &Vec<u32>, st: &mut Stats) -> Result<(), Bad> {
     let mut t = Tape::new(tape.iter().rev().cloned().collect());
     let reply = t.chance(50);
-    let opts = GenOpts::default();
+    // two legacy reply handlers are probed separately (recorded finding: first declared wins)
+    let opts = GenOpts { max_legacy_reply: 1, ..GenOpts::default() };
     let mut p = if reply { gen_reply_program("p_ord", tape.clone(), &opts, true) } else { gen_msg_program("p_ord", tape.clone(), &opts) };
     // random overrides (token level only)
     for k in Kind::ALL {
@@ -161,8 +162,33 @@ pub fn c14a_case(ex: &mut Expander, tape: &Vec<u32>, st: &mut Stats) -> Result<(
     Ok(())
 }
 
+/// Legacy contracts (no `sv::features(replies)`) with two `#[sv::msg(reply)]` methods, in both orders.
+fn legacy_two_replies(ex: &mut Expander, st: &mut Stats) -> Result<(), Bad> {
+    let mut p = gen_msg_program("p_leg", vec![0; 8], &GenOpts { legacy_reply: false, overrides: false, ..GenOpts::default() });
+    for name in ["first_reply", "second_reply"] {
+        p.contract.methods.push(crate::e1props::reply_method(name, false, p.contract.error));
+    }
+    let mut q = p.clone();
+    let n = q.contract.methods.len();
+    q.contract.methods.swap(n - 1, n - 2);
+    st.class("legacy-two-reply-handlers");
+    st.nontrivial(&"legacy-two-reply-handlers");
+    let ea = expand_program(ex, &p)?;
+    let eb = expand_program(ex, &q)?;
+    let (ta, tb) = (clean_text(&ea.contract, "contract", &p)?, clean_text(&eb.contract, "contract", &q)?);
+    let (xa, xb) = (clean_text(ea.entry.as_ref().unwrap(), "entry_points", &p)?, clean_text(eb.entry.as_ref().unwrap(), "entry_points", &q)?);
+    match compare("contract", ta, tb, &p, &q).and(compare("entry_points", xa, xb, &p, &q)) {
+        Ok(()) => Ok(()),
+        Err(Bad::Violation { what, detail, .. }) => Err(Bad::Violation { key: "legacy-reply:first-declared-wins".into(), what, detail }),
+        Err(e) => Err(e),
+    }
+}
+
 pub fn run(ctx: &Ctx, exe: &std::path::PathBuf, out: &mut Outcome) {
     let cases = if ctx.quick() { 1500 } else { 30000 };
     let res = run_generated(ctx, exe, "twins", || tape_strategy(600), cases, 8, c14a_case);
     to_outcome(ctx, "twins", res, out);
+    // fixed probe
+    let res = run_generated(ctx, exe, "legacy-two-replies", || proptest::strategy::Strategy::boxed(proptest::strategy::Just(vec![0u32])), 1, 1, |ex, _t: &Vec<u32>, st| legacy_two_replies(ex, st));
+    to_outcome(ctx, "legacy-two-replies", res, out);
 }
